@@ -383,6 +383,40 @@ def r_entity(rng, vmf_file, brush=None, max_power=3):
     return ent
 
 
+def rich_entity(rng, vmf_file):
+    """A brush entity with every optional block populated: fixups, outputs, groups, a prism with one
+    multiblend displacement (non-default allowed verts) and a face with Strata point data."""
+    vmf, kvm, sm = M.get()
+    solid = vmf_file.make_prism(sm.Vec(0, 0, 0), sm.Vec(64, 32, 16), 'brick/brickwall001a').solid
+    old = solid.sides[0]
+    disp = vmf.Side(vmf_file, [p.copy() for p in old.planes], -1, 16, 0, 'nature/blend_a', 0.0,
+                    old.uaxis.copy(), old.vaxis.copy(), 2)
+    disp.disp_pos = sm.Vec(1, 2, 3)
+    disp.disp_elevation = 4.5
+    disp.disp_flags = vmf.DispFlag.SUBDIV | vmf.DispFlag.COLL_PHYSICS
+    disp.disp_allowed_vert = array.array('i', [1, 2, 3, 4, 5, 6, 7, 8, 9, 10])
+    for i, vert in enumerate(disp._disp_verts):
+        vert.normal = sm.Vec(0, 0, 1)
+        vert.distance = float(i)
+        vert.offset = sm.Vec(i, 0, 0.5)
+        vert.offset_norm = sm.Vec(0, 1, 0)
+        vert.alpha = float(i * 10)
+        vert.triangle_a = vmf.TriangleTag.WALKABLE
+        vert.multi_blend = vmf.Vec4(0.25, 0.5, 0.75, 1.0)
+        vert.multi_alpha = vmf.Vec4(1.0, 0.0, 0.5, 0.25)
+        vert.multi_colors = [sm.Vec(1, 0, 0), sm.Vec(0, 1, 0), sm.Vec(0, 0, 1), sm.Vec(0.5, 0.5, 0.5)]
+    solid.sides[0] = disp
+    solid.sides[1].strata_points = [sm.Vec(0, 0, 0), sm.Vec(64, 0, 0), sm.Vec(64, 32, 0), sm.Vec(0, 32, 0)]
+    solid.visgroup_ids = {3, 11}
+    solid.group_id = 5
+    solid.editor_color = sm.Vec(10, 20, 30)
+    ent = vmf.Entity(vmf_file, {'classname': 'func_brush', 'targetname': 'Rich', 'origin': '1 2 3', 'message': 'q"uote'},
+                     [vmf.FixupValue('var', 'one', 1), vmf.FixupValue('Start_Enabled', '1', 2)], -1,
+                     [r_output(rng), r_output(rng)], [solid], False, [4], [3, 9], True, False, '[0 500]',
+                     sm.Vec(220, 30, 220), 'a "comment"')
+    return ent
+
+
 def r_visgroup(rng, vmf_file, depth=0):
     vmf, kvm, sm = M.get()
     kids = [r_visgroup(rng, vmf_file, depth + 1) for _ in range(rng.randrange(0, 3 if depth < 2 else 1))]
